@@ -92,4 +92,7 @@ def write(prop, spec, tier, seed, outcome, wall, partial=False):
         "wall_s": wall,
         "violations": len(outcome.violations),
     }
-    (runner.EVIDENCE / f"{prop}.json").write_text(json.dumps(ev, indent=1))
+    # a partial (debugging) run never replaces the evidence of a complete run
+    target = runner.EVIDENCE / f"{prop}.json" if not partial else runner.WORK / f"partial-evidence-{prop}.json"
+    target.parent.mkdir(parents=True, exist_ok=True)
+    target.write_text(json.dumps(ev, indent=1))
